@@ -167,6 +167,7 @@ type cs struct {
 	setNames  [][]byte       // names handed to a normalising setter
 	chunked   bool
 	protoVal  []byte // value fed to ResponseHeader.SetProtocol (nil: not used)
+	anyProto  []byte // value fed to any SetProtocol (request or response)
 	boundary  []byte
 	wantBody  string
 }
@@ -261,8 +262,8 @@ func setters() []setter {
 		c.q.Header.SetHost("h.example")
 		c.q.Header.SetRequestURIBytes(v)
 	})
-	add("RequestHeader.SetProtocol", 'q', "firstline", func(c *cs, v []byte) { c.q.Header.SetProtocol(string(v)) })
-	add("RequestHeader.SetProtocolBytes", 'q', "firstline", func(c *cs, v []byte) { c.q.Header.SetProtocolBytes(v) })
+	add("RequestHeader.SetProtocol", 'q', "firstline", func(c *cs, v []byte) { c.anyProto = append([]byte{}, v...); c.q.Header.SetProtocol(string(v)) })
+	add("RequestHeader.SetProtocolBytes", 'q', "firstline", func(c *cs, v []byte) { c.anyProto = append([]byte{}, v...); c.q.Header.SetProtocolBytes(v) })
 	add("RequestHeader.SetHost", 'q', "special", func(c *cs, v []byte) { c.q.Header.SetHost(string(v)) })
 	add("RequestHeader.SetHostBytes", 'q', "special", func(c *cs, v []byte) { c.q.Header.SetHostBytes(v) })
 	add("RequestHeader.SetUserAgent", 'q', "special", func(c *cs, v []byte) { c.q.Header.SetUserAgent(string(v)) })
@@ -357,7 +358,11 @@ func setters() []setter {
 	add("ResponseHeader.AddBytesKV(v,1)", 'p', "name", func(c *cs, v []byte) { w := val2(c); c.name(v, w); c.p.Header.AddBytesKV(v, w) })
 	// ---- ResponseHeader: status line and special fields
 	add("ResponseHeader.SetStatusMessage", 'p', "firstline", func(c *cs, v []byte) { c.p.Header.SetStatusMessage(v) })
-	add("ResponseHeader.SetProtocol", 'p', "firstline", func(c *cs, v []byte) { c.protoVal = append([]byte{}, v...); c.p.Header.SetProtocol(v) })
+	add("ResponseHeader.SetProtocol", 'p', "firstline", func(c *cs, v []byte) {
+		c.protoVal = append([]byte{}, v...)
+		c.anyProto = c.protoVal
+		c.p.Header.SetProtocol(v)
+	})
 	add("ResponseHeader.SetServer", 'p', "special", func(c *cs, v []byte) { c.allowName("server", 1); c.p.Header.SetServer(string(v)) })
 	add("ResponseHeader.SetServerBytes", 'p', "special", func(c *cs, v []byte) { c.allowName("server", 1); c.p.Header.SetServerBytes(v) })
 	add("ResponseHeader.SetContentType", 'p', "special", func(c *cs, v []byte) { c.p.Header.SetContentType(string(v)) })
@@ -605,6 +610,18 @@ func judge(c *cs, st *setter, v []byte, s seen) []verdict {
 	// narrow predicate: the response protocol string carries a SP (after CR/LF->SP neutralisation), which moves
 	// the peer's status-code token.
 	shift := c.protoVal != nil && bytes.ContainsAny(c.protoVal, " \r\n")
+	if c.chunked && c.anyProto != nil {
+		// The caller asked for another HTTP version (say HTTP/1.0) and for a body of unknown size: how a peer
+		// frames a chunked body under a version that has no chunked coding is a framing question (C03), not
+		// an injection. Field names are still judged.
+		ver := neutral(c.anyProto)
+		if i := strings.IndexByte(ver, ' '); i >= 0 {
+			ver = ver[:i]
+		}
+		if ver != "" && ver != "http/1.1" {
+			return append(out, verdict{"", "skipped_chunked_under_other_version"})
+		}
+	}
 	if string(s.body) != c.wantBody {
 		key := "body-boundary/" + st.kind
 		if shift {
@@ -654,6 +671,7 @@ func TestC05(t *testing.T) {
 	r.Assume("net/http and the strict RFC 9112 parser of this package are correct peers; a peer rejecting the whole message (or Write failing) counts as 'rejected', which the property allows")
 	r.Assume("a peer-visible field name matches a set name when they are equal ignoring case and surrounding SP/HTAB after the documented CR/LF->SP neutralisation; fasthttp's default fields (Host, User-Agent, Content-Type, Content-Length, Date, Server, Transfer-Encoding, Trailer; Authorization for URIs with userinfo) may appear once each")
 	r.Assume("SetCanonical's key argument and DisableNormalizing'd names are outside the property (non-normalising paths): SetCanonical gets a fixed valid key; with DisableNormalizing only the value/name checks above are applied, no case rule")
+	r.Assume("a body stream of unknown size under a caller-chosen HTTP version other than HTTP/1.1 is not judged for body/trailing bytes (event skipped_chunked_under_other_version): chunked framing under HTTP/1.0 is C03's subject")
 	r.Assume("a multipart boundary that changes the boundary parameter a MIME parser extracts is counted (event boundary_param_differs), not judged: the property's 'body boundary' is taken as the message framing")
 
 	n := r.N(100_000, 3_000_000)
@@ -815,6 +833,10 @@ func oneCase(r *mon.Run, tab []setter, i int) {
 		r.Event("peer_accepts", 1)
 		r.Event("peer_accepts:"+s.peer, 1)
 		for _, vd := range judge(c, st, v, s) {
+			if vd.key == "" {
+				r.Event(vd.what, 1)
+				continue
+			}
 			r.Violation(i, vd.key, fmt.Sprintf("%s(%s): %s", st.name, mon.Short(v, 120), vd.what), payload())
 		}
 	}
@@ -992,6 +1014,9 @@ func proxyCases(r *mon.Run, base, np int) {
 			outcome += "a"
 			r.Event("peer_accepts_proxy", 1)
 			for _, vd := range judge(c, st, []byte(target), s) {
+				if vd.key == "" {
+					continue
+				}
 				r.Violation(i, vd.key, fmt.Sprintf("%s target %s: %s", api, mon.Short([]byte(target), 80), vd.what), payload)
 			}
 		}
